@@ -55,7 +55,11 @@ RULE = ("streams: corpus; directed-grid (systematic, seed-independent: axis-alig
         "(oblique axis, or unequal radii, or coincident centres), or when it is a cell query whose proximal point is "
         "inherited; distinct = distinct canonical (hex-float) inputs")
 TRUST = [
-    "translators/py2lean_geom.py (AST shape -> Lean term; validated on every run by the Float correspondence, not verified)",
+    "translators/py2lean_geom.py (AST shape -> Lean term; validated on every run by the Float correspondence, not verified), "
+    "including its normaliser: a function whose translation equals that of the canonical shape (translators/py2lean_geom_canon.py) "
+    "up to bound-variable names, unfolding of pure lets, `match c with |.error e => .error e |.ok v => .ok v` = c and the order of "
+    "the arms of a match / negated if is emitted in the canonical text (expression texts and the order of guards, calls and "
+    "tests are compared literally: no arithmetic is ever reordered); evidence.coverage.translator_normalised lists them",
     "Lean `Float` operations and CPython float operations are both IEEE-754 binary64 round-to-nearest (driver side compiled/interpreted by Lean)",
     "hand-written Model/Geom.lean: Cell.get_segment (first match, ValueError; characterised by get_segment_first_match / get_segment_missing) and the fuel recursion tying get_actual_proximal (fuel bound proved: actual_proximal_fuel_bound); tied to the code by correspondence (duplicate ids, unknown ids, cycles, chains 60 deep)",
     "value shapes: Point3DWithDiam/SegmentParent members are Python floats (the constructors cast ints / numeric strings with _cast(float, ..) — checked every run; a member ASSIGNED afterwards as int/str is not modelled); distal is always present (a missing distal raises AttributeError in the code, outside the property's quantifier)",
@@ -1146,7 +1150,11 @@ def regenerate(ctx):
     if tdir not in sys.path:
         sys.path.insert(0, tdir)
     import py2lean_geom
-    return py2lean_geom.regenerate(fw.REPO, os.path.join(fw.LEAN, "NmlVerif", "Gen", "Geom.lean"))
+    gaps = py2lean_geom.regenerate(fw.REPO, os.path.join(fw.LEAN, "NmlVerif", "Gen", "Geom.lean"))
+    # robustness round: functions whose CURRENT surface syntax differs from the canonical shape but whose translation is
+    # the same Lean function (alpha / let-unfolding / Except-eta / arm order) are emitted in the canonical text
+    ctx.extra["translator_normalised"] = sorted({"%s.%s" % (c, f) for _, c, f in py2lean_geom.NORMALISED})
+    return gaps
 
 
 def replay(ctx, payload):
